@@ -42,6 +42,8 @@ SweepCons == {"if", "dol", "where", "forall"}
 KLayout == {"brk", "join", "case", "cmt"}
 KLayout1 == {"brk", "join", "case"}
 KBrk == {"brk"}
+KJoin == {"join"}
+IfOnly == {"if"}
 KPar == {"par"}
 InsSmall == {1, 2, 3, 7, 11}
 InsAll == 1..12
